@@ -41,7 +41,9 @@ MANIFEST = {
              "equations or own lags; the executable decision admissibleFlags is sound and complete for Admissible; end-to-end theorem "
              "simulate_all_equations_hold with hypotheses on the model text, span and plan only; converse: an Admissible dates/equations "
              "order forces the closed-form condition on LHS rows; _detect_exogenized hits the target for every transform at EVERY shift "
-             "<= -1 (Python indexing of values_before modelled, out-of-range = error); every row of CHOOSE_TRANSFORM_CLASS, aliases "
+             "<= -1 (Python indexing of values_before modelled, out-of-range = error); the data-source options are modelled (initialCell): parameters come "
+             "from the databox iff parameters_from_data, residuals unless shocks_from_data=False, independently, with the option each "
+             "Slatable block tests regenerated from the code; every row of CHOOSE_TRANSFORM_CLASS, aliases "
              "included, maps its spelling to the class of the documented transform; the data array's extent nPre/nPost is computed by the "
              "model and every read is proved to land inside it; the returned databox target_db | out_db is modelled as a dict union (fresh "
              "results override, other names carried over, target order kept); the model object is a state machine (reorder / copy / "
